@@ -62,7 +62,7 @@ func TestCheck(t *testing.T) {
 	env := report.FromEnv()
 	rep := env.New("C07")
 	rep.Assumptions = []string{
-		"exhaustive over the alphabet {a, b, *, /, ., newline, $, backslash, [, é} up to the length bound; the property's 'random Unicode strings up to a few hundred bytes' part is sampling and is not performed",
+		"exhaustive over the alphabet {a, b, *, /, ., newline, $, backslash, [, é} up to the length bound, and over a punctuation alphabet {a * % ( ) + ? { ^ | ] - space} one length shorter; the property's 'random Unicode strings up to a few hundred bytes' part is sampling and is not performed",
 	}
 	n := 3
 	if env.Thorough() {
